@@ -160,6 +160,27 @@ func matches(t string, k kernel) bool {
 	return true
 }
 
+// expand is the text of an expression with the function's single-assignment locals replaced by their definitions: a branch
+// condition that was given a name (`sameKey := found && bytes.Equal(..)`; `if !sameKey`) is recognised by what it tests,
+// with the polarity it is used with.
+func expand(e ast.Expr) string {
+	t := text(e)
+	for i := 0; i < 3; i++ {
+		changed := false
+		for name, def := range locals {
+			re := regexp.MustCompile(`\b` + regexp.QuoteMeta(name) + `\b`)
+			if re.MatchString(t) && !strings.Contains(text(def), name) {
+				t = re.ReplaceAllString(t, "("+text(def)+")")
+				changed = true
+			}
+		}
+		if !changed {
+			break
+		}
+	}
+	return t
+}
+
 // locate returns the Go expression a kernel refers to.
 func locate(k kernel) (ast.Expr, error) {
 	if k.kind == "constdecl" {
@@ -190,7 +211,7 @@ func locate(k kernel) (ast.Expr, error) {
 	ast.Inspect(fd.Body, func(n ast.Node) bool {
 		switch x := n.(type) {
 		case *ast.IfStmt:
-			if k.kind == "ifcond" && matches(text(x.Cond), k) {
+			if k.kind == "ifcond" && (matches(text(x.Cond), k) || matches(expand(x.Cond), k)) {
 				found = append(found, x.Cond)
 			}
 		case *ast.AssignStmt:
@@ -212,42 +233,14 @@ func locate(k kernel) (ast.Expr, error) {
 		}
 		return true
 	})
-	if len(found) == 0 && (k.kind == "ifcond" || k.kind == "assign" || k.kind == "return") {
-		// the decision may have been given a name or moved into a return: take the largest boolean expression of the function
-		// that mentions what the kernel is about
-		var walk func(n ast.Node, insideMatch bool)
-		isBool := func(e ast.Expr) bool {
-			switch x := e.(type) {
-			case *ast.BinaryExpr:
-				switch x.Op {
-				case token.LAND, token.LOR, token.EQL, token.NEQ, token.LSS, token.LEQ, token.GTR, token.GEQ:
-					return true
-				}
-			case *ast.UnaryExpr:
-				return x.Op == token.NOT
-			}
-			return false
-		}
-		walk = func(n ast.Node, insideMatch bool) {
-			ast.Inspect(n, func(m ast.Node) bool {
-				if m == nil || m == n {
-					return true
-				}
-				if e, ok := m.(ast.Expr); ok && isBool(e) && matches(text(e), k) {
-					found = append(found, e)
-					return false // maximal: do not descend into it
-				}
-				return true
-			})
-		}
-		walk(fd.Body, false)
-		if k.trueMeansReturnsTrue && len(found) == 1 {
-			// which way round is it written? `if cond { return .., false }` holds the negation of the kernel
-			cond := found[0]
+	if k.trueMeansReturnsTrue && len(found) == 0 {
+		// ctxSync-shaped functions: `if cond { return .., false }` followed by a final `return .., true` holds the negation
+		last := fd.Body.List[len(fd.Body.List)-1]
+		if rs, ok := last.(*ast.ReturnStmt); ok && len(rs.Results) > 0 && text(rs.Results[len(rs.Results)-1]) == "true" {
 			ast.Inspect(fd.Body, func(n ast.Node) bool {
-				if is, ok := n.(*ast.IfStmt); ok && is.Cond == cond && len(is.Body.List) > 0 {
-					if rs, ok := is.Body.List[len(is.Body.List)-1].(*ast.ReturnStmt); ok && len(rs.Results) > 0 && text(rs.Results[len(rs.Results)-1]) == "false" {
-						found[0] = negate(cond)
+				if is, ok := n.(*ast.IfStmt); ok && is.Else == nil && (matches(text(is.Cond), k) || matches(expand(is.Cond), k)) && len(is.Body.List) > 0 {
+					if r2, ok := is.Body.List[len(is.Body.List)-1].(*ast.ReturnStmt); ok && len(r2.Results) > 0 && text(r2.Results[len(r2.Results)-1]) == "false" {
+						found = append(found, negate(is.Cond))
 					}
 				}
 				return true
